@@ -430,6 +430,19 @@ def e_invalid():
         yield st([dw([MList(z, [MNameValue('foo', 'path', P('a'))])])])
         yield st([dw([MList(z, [MList('crate', [])])])])
     yield st([dw(['Zeroize'])], [Field(0, 'T', [opt(MList('Zeroize', [MPathM('fqs'), MPathM('fqs')]))])])
+    # an option repeated in another list entry or in another attribute of the same field / variant / item
+    fq = MList('Zeroize', [MPathM('fqs')])
+    yield st([dw(['Zeroize'])], [Field(0, 'T', [opt(fq, fq)])])
+    yield st([dw(['Zeroize'])], [Field(0, 'T', [opt(fq), opt(fq)])])
+    yield st([dw(['Zeroize', 'Debug'])], [Field(0, 'T', [opt(fq), opt(skip_meta(['Debug'])), opt(fq)])])
+    yield st([dw(['Zeroize', 'Debug'])], [Field(0, 'T', [opt(fq, skip_meta(['Debug']), fq)])])
+    yield st([dw(['Zeroize', 'Debug'])], [Field(0, 'T', [opt(fq), opt(skip_meta(['Debug']))])])       # control: accepted
+    yield en([dw(['Default'])], [X([opt('default'), opt('default')]), Y()])
+    yield en([dw(['PartialEq'])], [X([opt('incomparable'), opt('incomparable')]), Y()])
+    yield en([dw(['Debug'])], [X([opt('skip_inner'), opt('skip_inner')]), Y()])
+    yield en([dw(['Debug'])], [X([opt('skip_inner', 'skip_inner')]), Y()])
+    yield en([dw(['Debug', 'Hash'])], [X([opt(skip_meta(['Debug'], 'skip_inner')), opt(skip_meta(['Hash'], 'skip_inner'))]), Y()])
+    yield st([dw(['Debug']), Attr('dw', opt('skip_inner')), Attr('dw', opt('skip_inner'))])
     yield st([dw(['Zeroize'])], [Field(0, 'T', [opt(MList('Zeroize', [MPathM('foo')]))])])
     yield st([dw(['Zeroize'])], [Field(0, 'T', [opt('Zeroize')])])
     yield st([dw(['Zeroize'])], [Field(0, 'T', [opt(MNameValue('Zeroize', 'other'))])])
